@@ -285,7 +285,7 @@ def r_C19a_C01(root):
         lst = r if isinstance(r, ast.List) else next(x for x in ast.walk(r) if isinstance(x, ast.List))
         return [e.value for e in lst.elts]
     SPEC_REP = {"?": "Optional", "*": "ZeroOrMore", "+": "OneOrMore", "#": "UnorderedGroup"}
-    vr = find(t, "TextXVisitor.visit_repeatable_expr")
+    vr = find_i(root, L, "TextXVisitor.visit_repeatable_expr")
     chain = next(s for s in ast.walk(vr) if isinstance(s, ast.If) and ast.unparse(s.test).startswith("repeat_op == ") and not (isinstance(getattr(s, "_parent", None), ast.If) and s in s._parent.orelse))
     got = {}; cur = chain
     while True:
@@ -301,11 +301,13 @@ def r_C19a_C01(root):
         inst += 1
         if got.get(tok) != SPEC_REP.get(tok): out.append(Finding("C01", "C01.a", L, "TextXVisitor.visit_repeatable_expr", "repeat_op == %r" % tok, "operator %r builds %s, documented %s" % (tok, got.get(tok), SPEC_REP.get(tok))))
     SPEC_ASG = {"+=": ("OneOrMore", "__asgn_oneormore"), "*=": ("ZeroOrMore", "__asgn_zeroormore"), "?=": ("Optional", "__asgn_optional"), "=": ("Sequence", "__asgn_plain")}
-    va = find(t, "TextXVisitor.visit_assignment")
-    chain = next(s for s in va.body if isinstance(s, ast.If) and ast.unparse(s.test).startswith("op == "))
+    va = find_i(root, L, "TextXVisitor.visit_assignment")
+    def _asgn_ctor(x): return isinstance(x, ast.Assign) and isinstance(x.value, ast.Call) and any(k.arg == "rule_name" and isinstance(k.value, ast.Constant) and str(k.value.value).startswith("__asgn") for k in x.value.keywords)
+    chain = next((s for s in ast.walk(va) if isinstance(s, ast.If) and ast.unparse(s.test).startswith("op == ") and not (isinstance(getattr(s, "_parent", None), ast.If) and s in s._parent.orelse) and any(_asgn_ctor(x) for x in ast.walk(s))), None)
+    if chain is None: raise AnalysisError("visit_assignment: operator dispatch (op == ... -> assignment rule constructor) not found")
     got = {}; cur = chain
     def ctor(block):
-        a = next((s for s in block if isinstance(s, ast.Assign) and ast.unparse(s.targets[0]) == "assignment_rule"), None)
+        a = next((s for s in block if _asgn_ctor(s)), None)
         if a is None: return None
         rn = next((k.value.value for k in a.value.keywords if k.arg == "rule_name"), None)
         return (callee_name(a.value), rn)
